@@ -7,7 +7,7 @@ import numpy as np
 from ..common import DataSet, gen_values, build_tree, all_canon_trees, make_tree_dist, extract
 from ..enumrng import run_all, TooManyLeaves
 from ..common import install_tie_probe, tie_reset, TIE
-from phyclone.run import setup_kernel, setup_samplers
+from phyclone.run import setup_kernel, setup_samplers, _run_main_sampler
 from phyclone.utils.dev import clear_proposal_dist_caches
 
 ID = "C04"
@@ -30,7 +30,20 @@ RULE = ("moves = data-point Gibbs scan, prune-regraft, random-subtree particle G
         "prune-regraft: every configuration; subtree move: pinned instances only, whose bias is the known finding F7). "
         "Plus prune-regraft single rows on 7-10 clones: row vs the model and vs the Gibbs conditional recomputed independently over "
         "every attachment point.  Start trees are named bottom-up (SMC placements) and in preorder (relabel_nodes, as the run loop "
-        "leaves them).  Non-trivial: start tree with >= 2 data points; distinct by digest.")
+        "leaves them).  "
+        "Move kind 'sweep' (the composition the capstone theorem full_sweep_invariant is about): the real run._run_main_sampler is "
+        "driven for ONE iteration (num_iters = 1, thin = 1, concentration update off, subtree_update_prob = 0, stub timer; kernel "
+        "and samplers from setup_kernel / setup_samplers) under the enumerating generator - every draw of the iteration, the "
+        "`rng.random() < subtree_update_prob` draw included - and the tree is read off the last trace entry (decoded from its "
+        "edge list / node_data without phyclone code; the first entry must be the start tree); its exact law from EVERY start "
+        "tree is compared (1e-10) with the model's Sweep.sweepModel r (Sweep.mvOf r) k1 k2 (driver op `sweep`), and the assembled "
+        "matrix goes through the same pi K = pi oracle.  Configurations: 2 data points, N = 2, threshold drawn from {0, 1/2, "
+        "7/10}, the three proposals x outliers off/on x all (k1, k2) in {0,1,2}^2 (54 matrices); 3 data points (needed for the "
+        "ORDER of the two loops: on 2 points the data-point scan and the prune-regraft move act on disjoint sets of trees and "
+        "commute): quick - N = 2 with (k1, k2) = (0, 1), and N = 1 (particle Gibbs returns its start tree) with (1, 1), "
+        "outliers off and on; thorough - N = 2 with (0,1), (1,0), (1,1) for the three proposals (outliers off) and (0,1), (1,0) "
+        "with outliers, N = 1 with (1,1), (1,2) for the three proposals x outliers off/on and (2,1).  "
+        "Non-trivial: start tree with >= 2 data points; distinct by digest.")
 TRUSTED = ["numpy Generator draws replaced by exact enumeration"]
 ASSUMPTIONS = ["exact arithmetic in the theorems"]
 MAX_LEAVES = 1_500_000
@@ -43,6 +56,9 @@ PINNED = [
     {"pin": "F7-b", "n": 3, "outliers": True, "kind": "bootstrap", "alpha": "1/1", "N": 2, "theta": "1/2",
      "vals": [[["1/2", "1/4", "1/1"]], [["3/4", "1/8", "1/2"]], [["1/4", "1/1", "3/8"]]]},
 ]
+
+
+SWEEP_SITE = "run._run_main_sampler"
 
 
 def tkey(f, o):
@@ -98,11 +114,119 @@ def cases(tier, rnd):
         out.append({"move": "prg", "n": n, "outliers": False, "kind": "semi-adapted", "N": 2, "theta": "1/2", "group": f"big{i}", "nstates": 0,
                     "data": ds.to_json(), "alpha": rnd.choice(["3/10", "1/1", "7/2"]), "start": [f, o], "pin": None, "relabel": i % 2 == 1,
                     "single": True})
+    # one whole iteration of the run loop (`_run_main_sampler`, subtree_update_prob = 0): the composition the capstone theorem
+    # `full_sweep_invariant` is about.  k1 = num_samples_data_point, k2 = num_samples_prune_regraph.  (Generated last so that
+    # the cases above are the same per seed as before these were added.)
+    sw = []
+    for kind in ("bootstrap", "semi-adapted", "fully-adapted"):
+        for outl in (False, True):
+            sw += [(2, kind, outl, k1, k2, 2, rnd.choice(["0/1", "1/2", "7/10"])) for k1 in (0, 1, 2) for k2 in (0, 1, 2)]
+    # Three data points.  (On two, the data-point scan and the prune-regraft move act on disjoint sets of trees - the first only
+    # moves points between a clone holding both and the outlier set, the second needs two clones - so they commute and their
+    # ORDER in the loop is invisible there.)  N = 2: particle Gibbs followed by a prune-regraft move (quick), by a move of
+    # either kind and by both (thorough: ~10^5 leaves per matrix).  N = 1 (`--num-particles 1`: the particle-Gibbs update returns its start tree, at
+    # little cost): data-point scan then prune-regraft, so that the quick tier too sees their order and the hand-over between them.
+    kinds = ["bootstrap", "semi-adapted", "fully-adapted"]
+    if tier == "quick":
+        sw += [(3, rnd.choice(kinds), False, 0, 1, 2, "1/2"), (3, rnd.choice(kinds), False, 1, 1, 1, "1/2"),
+               (3, rnd.choice(kinds), True, 1, 1, 1, "1/2")]
+    else:
+        sw += [(3, kind, False, k1, k2, 2, "1/2") for kind in kinds for k1, k2 in ((0, 1), (1, 0), (1, 1))]
+        sw += [(3, rnd.choice(kinds), True, k1, k2, 2, "1/2") for k1, k2 in ((0, 1), (1, 0))]
+        sw += [(3, kind, outl, k1, k2, 1, "1/2") for kind in kinds for outl in (False, True) for k1, k2 in ((1, 1), (1, 2))]
+        sw += [(3, rnd.choice(kinds), False, 2, 1, 1, "1/2")]
+    for j, (n, kind, outl, k1, k2, N, th) in enumerate(sw):
+        S, G = (rnd.randint(1, 2), rnd.randint(3, 5)) if n == 2 else (1, 3)
+        ds = DataSet([gen_values(rnd, S, G, bits=3) for _ in range(n)], Fraction(1, 5) if outl else Fraction(0))
+        alpha = rnd.choice(["3/10", "1/1", "7/2"])
+        states = all_canon_trees(n, outliers=outl)
+        for f, o in states:
+            # a sweep is handed the tree the previous sweep (or the burn-in) relabelled; `get_single_node_tree`, the start after
+            # `--burnin 0`, is in preorder too: mostly relabelled starts, every fourth configuration bottom-up names
+            out.append({"move": "sweep", "n": n, "outliers": outl, "kind": kind, "N": N, "theta": th, "k1": k1, "k2": k2, "group": f"sw{j}",
+                        "nstates": len(states), "data": ds.to_json(), "alpha": alpha, "start": [f, o], "pin": None, "relabel": j % 4 != 3})
     out.sort(key=lambda c: (c["move"] != "subtree", -c["n"]))
     return out
 
 
+class StubTimer:
+    """Stands in for `utils.Timer` in the run loop: no wall clock, so the time limit never fires."""
+    elapsed = 0.0
+
+    def __enter__(self):
+        return self
+
+    def __exit__(self, *a):
+        return False
+
+
+def trace_tree(entry, n):
+    """(canonical forest, outliers) of the `tree` field of one trace entry, decoded without any phyclone code: clone
+    name -> data points from `node_data`, edges from the edge list through `node_idx`."""
+    from ..common import canon_forest
+
+    d = entry["tree"]
+    name_of = {i: nm for nm, i in d["node_idx"].items()}
+    kids, has_parent = {}, set()
+    for a, b in d["graph"]:
+        kids.setdefault(name_of[a], []).append(name_of[b])
+        has_parent.add(name_of[b])
+    roots = [nm for nm in d["node_idx"] if nm not in has_parent]
+    if len(roots) != 1:
+        raise AssertionError(f"trace tree has {len(roots)} parentless nodes")
+    dps = {nm: sorted(x.idx for x in v) for nm, v in d["node_data"].items()}
+    outs = sorted(dps.get(-1, []))
+
+    def go(nm):
+        return [dps.get(nm, []), [go(c) for c in kids.get(nm, [])]]
+
+    if dps.get(roots[0]):
+        raise AssertionError("virtual root holds data")
+    forest = canon_forest(go(roots[0])[1])
+    if sorted(outs + [i for dd in _dps(forest) for i in dd]) != list(range(n)):
+        raise AssertionError("data not conserved")
+    return forest, outs
+
+
+def sweep_row(case, ds, td):
+    """Exact law of the tree recorded by ONE iteration of the real `run._run_main_sampler` (kernel and samplers from
+    `setup_kernel` / `setup_samplers`, `subtree_update_prob = 0`, concentration update off, `thin = 1`), every random draw
+    of the iteration enumerated - including the `rng.random() < subtree_update_prob` draw, which never fires."""
+    import contextlib
+    import io
+
+    f, o = case["start"]
+    sink = io.StringIO()
+
+    def run(rng):
+        clear_proposal_dist_caches()
+        kernel = setup_kernel(float(ds.outlier_prob), case["kind"], rng, td)
+        s = setup_samplers(kernel, case["N"], float(ds.outlier_prob), float(Fraction(case["theta"])), rng, td)
+        t0 = build_tree(ds.real, f, o)
+        if case.get("relabel"):
+            t0.relabel_nodes()
+        sink.seek(0)
+        sink.truncate()
+        with contextlib.redirect_stdout(sink):
+            res = _run_main_sampler(False, ds.real, float("inf"), 1, case["k1"], case["k2"], 1, s, None, 1, StubTimer(), t0, td, 0,
+                                    rng, 0.0)
+        tr = res["trace"]
+        if len(tr) != 2 or tr[0]["iter"] != 0 or tr[1]["iter"] != 0:
+            raise AssertionError(f"one iteration with thin = 1 left {len(tr)} trace entries")
+        if tkey(*trace_tree(tr[0], ds.n)) != tkey(f, o):
+            raise AssertionError("first trace entry is not the start tree")
+        return tkey(*trace_tree(tr[1], ds.n))
+
+    row, leaves = {}, 0
+    for p, r in run_all(run, MAX_LEAVES):
+        row[r] = row.get(r, 0.0) + p
+        leaves += 1
+    return row, leaves
+
+
 def real_row(case, ds, td):
+    if case["move"] == "sweep":
+        return sweep_row(case, ds, td)
     f, o = case["start"]
     which = {"dp": "dp_sampler", "prg": "prg_sampler", "subtree": "subtree_sampler"}[case["move"]]
 
@@ -223,7 +347,12 @@ def check(ctx, case):
     else:
         ctx.partial(case["group"], {"start": tkey(f, o), "row": row, "lp1": lp1, "nstates": case["nstates"],
                                     "case": {k: v for k, v in case.items() if k != "start"}})
-    if case["move"] == "subtree":
+    if case["move"] == "sweep":
+        req = {"op": "sweep", "data": case["data"], "N": case["N"], "theta": case["theta"], "k1": case["k1"], "k2": case["k2"],
+               "cfg": {"kind": case["kind"], "op": "1/10" if case["outliers"] else "0/1", "alpha": case["alpha"], "perm": True},
+               "tree": {"forest": f, "outs": o}}
+        ctx.stat(f"sweep_k1_{case['k1']}_k2_{case['k2']}")
+    elif case["move"] == "subtree":
         req = {"op": "subtree", "data": case["data"], "N": case["N"], "theta": case["theta"],
                "cfg": {"kind": case["kind"], "op": "1/10" if case["outliers"] else "0/1", "alpha": case["alpha"], "perm": True},
                "tree": {"forest": f, "outs": o}}
@@ -234,9 +363,11 @@ def check(ctx, case):
     mrow = {tkey(t[0], t[1]): Fraction(q) for t, q in ans["dist"]}
     for k in set(mrow) | set(row):
         if abs(float(mrow.get(k, 0)) - row.get(k, 0.0)) > 1e-10:
-            ctx.corr_fail(case, f"{case['move']} move: transition probability to {k}", {"code": row.get(k, 0.0), "model": float(mrow.get(k, 0))})
+            what = (f"one iteration of run._run_main_sampler (num_samples_data_point = {case['k1']}, num_samples_prune_regraph = "
+                    f"{case['k2']}) vs Sweep.sweepModel" if case["move"] == "sweep" else f"{case['move']} move")
+            ctx.corr_fail(case, f"{what}: transition probability to {k}", {"code": row.get(k, 0.0), "model": float(mrow.get(k, 0))})
             break
-    ctx.done(case, nontrivial=(case["n"] >= 2), sample={k: case[k] for k in ("move", "kind", "outliers", "alpha", "start", "pin")})
+    ctx.done(case, nontrivial=(case["n"] >= 2), sample={k: case[k] for k in ("move", "kind", "outliers", "alpha", "start", "pin", "k1", "k2") if k in case})
 
 
 def finalize(ctx):
@@ -263,14 +394,15 @@ def finalize(ctx):
         bias = pi @ K - pi
         ctx.stat("matrices_checked")
         site = {"dp": "mcmc.gibbs_mh.DataPointSampler.sample_tree", "prg": "mcmc.gibbs_mh.PruneRegraphSampler.sample_tree",
-                "subtree": SUBTREE_SITE}[case["move"]]
+                "subtree": SUBTREE_SITE, "sweep": SWEEP_SITE}[case["move"]]
         if np.abs(bias).max() > 1e-10:
             j = int(np.abs(bias).argmax())
             case["target"] = json.loads(keys[j])
             sig = {"kind": "not-invariant"}
             if case.get("pin"):
                 sig = {"pin": case["pin"], "bias": [round(float(b), 12) for b in bias]}
-            ctx.oracle_fail(case, f"{case['move']} move: posterior not invariant, max |pi K - pi| = {np.abs(bias).max():.3e} at {keys[j]}",
+            what = f"one run-loop iteration (k1 = {case['k1']}, k2 = {case['k2']})" if case["move"] == "sweep" else f"{case['move']} move"
+            ctx.oracle_fail(case, f"{what}: posterior not invariant, max |pi K - pi| = {np.abs(bias).max():.3e} at {keys[j]}",
                             site, sig, {"max_abs": float(np.abs(bias).max())})
         elif case.get("pin"):
             ctx.stat("pinned_instance_now_invariant")
@@ -279,6 +411,27 @@ def finalize(ctx):
 def search(ctx, failed, rnd, deadline):
     import time
 
+    # the whole iteration first when its correspondence broke (two data points with outliers: every move of the sweep acts there)
+    if any(c.get("move") == "sweep" for c in failed):
+        for kind in ("semi-adapted", "bootstrap", "fully-adapted"):
+            for k1, k2 in ((1, 1), (2, 1)):
+                if time.time() > deadline:
+                    return
+                ds = DataSet([gen_values(rnd, 1, 3, bits=3) for _ in range(2)], Fraction(1, 5))
+                td = make_tree_dist(1.0)
+                states = all_canon_trees(2, outliers=True)
+                sub = type(ctx)(ctx.pid, ctx.tier, ctx.seed, None)
+                for f, o in states:
+                    case = {"move": "sweep", "n": 2, "outliers": True, "kind": kind, "N": 2, "theta": "1/2", "k1": k1, "k2": k2, "group": "s",
+                            "nstates": len(states), "data": ds.to_json(), "alpha": "1/1", "start": [f, o], "pin": None, "relabel": True}
+                    row, _ = real_row(case, ds, td)
+                    sub.partial("s", {"start": tkey(f, o), "row": row, "lp1": float(td.log_p_one(build_tree(ds.real, f, o))),
+                                      "nstates": len(states), "case": {k: v for k, v in case.items() if k != "start"}})
+                    ctx.evaluations += 1
+                finalize(sub)
+                ctx.oracle_failures += sub.oracle_failures
+                if sub.oracle_failures:
+                    return
     for move in ("dp", "prg"):
         for outl in (False, True):
             if time.time() > deadline:
